@@ -10,6 +10,7 @@ import (
 	"os/exec"
 	"sort"
 	"strings"
+	"sync"
 	"time"
 )
 
@@ -299,7 +300,57 @@ type Event struct {
 	Def  string // non-empty: this assumption defines the constant Def (sliced away when unused)
 	prev *Event
 	n    int
+	syms []string
+	Init bool // assumed while executing package initialisers: kept only when relevant
+	Cut  bool // loop cut marker: older quantified assumptions are dropped
 }
+
+var inInitPhase bool
+
+// keySymbol: nullary constants and literal references link an init-time
+// assumption to a query; function symbols and small numbers do not.
+func keySymbol(s string) bool {
+	if isIntLit(s) {
+		_, ok := initFacts[s]
+		return ok
+	}
+	if si, ok := symbols[s]; ok {
+		return strings.HasPrefix(si.decl, "(declare-const")
+	}
+	return false
+}
+
+func (e *Event) symbols() []string {
+	if e.syms == nil {
+		m := map[string]bool{}
+		collectSymbols(e.Text, m)
+		e.syms = make([]string, 0, len(m))
+		for k := range m {
+			e.syms = append(e.syms, k)
+		}
+	}
+	return e.syms
+}
+
+var factSyms = map[string][]string{}
+
+func symbolsOfFact(f string) []string {
+	if s, ok := factSyms[f]; ok {
+		return s
+	}
+	m := map[string]bool{}
+	collectSymbols(f, m)
+	out := make([]string, 0, len(m))
+	for k := range m {
+		out = append(out, k)
+	}
+	factSymsMu.Lock()
+	factSyms[f] = out
+	factSymsMu.Unlock()
+	return out
+}
+
+var factSymsMu sync.Mutex
 
 // Check is one obligation instance generated on a path.
 type Check struct {
@@ -311,28 +362,183 @@ type Check struct {
 	Detail string
 	Cover  bool // a reachability cover (expect sat) rather than an obligation
 	Canary bool // must not be unsat
+	body   string
 }
 
 func (c *Check) Script(timeoutMs int, forCvc5 bool) string {
+	return c.ScriptLevel(timeoutMs, forCvc5, -1)
+}
+
+// ScriptLevel builds the query with quantified assumptions filtered by
+// relevance to the goal (level 0, 1, ...; -1 = everything). Dropping
+// assumptions is sound: only an `unsat` answer is used from a filtered query.
+func (c *Check) ScriptLevel(timeoutMs int, forCvc5 bool, level int) string {
+	var body string
+	if level < 0 {
+		if c.body == "" {
+			c.body = c.buildBody(-1)
+		}
+		body = c.body
+	} else {
+		body = c.buildBody(level)
+	}
+	var b strings.Builder
+	if forCvc5 {
+		b.WriteString("(set-option :produce-models true)\n(set-logic ALL)\n")
+	} else {
+		fmt.Fprintf(&b, "(set-option :timeout %d)\n", timeoutMs)
+	}
+	b.WriteString(body)
+	return b.String()
+}
+
+func rareSymbol(s string) bool {
+	if _, ok := symbols[s]; !ok {
+		return false
+	}
+	if strings.HasPrefix(s, "|H") || strings.HasPrefix(s, "|M") || strings.HasPrefix(s, "|G") || strings.HasPrefix(s, "next") || s == "frame.r" {
+		return false
+	}
+	return true
+}
+
+func (c *Check) buildBody(level int) string {
 	var evs []*Event
 	for e := c.At; e != nil; e = e.prev {
 		evs = append(evs, e)
 	}
-	// definitional slicing: a definition is kept only when its constant is used
+	// slicing: a definition is kept only when its constant is used; an init
+	// fact is added only when its literal reference occurs
 	used := map[string]bool{}
-	if !c.Cover {
-		collectSymbols(c.Goal.S, used)
-	}
-	keep := make([]bool, len(evs))
-	for i, e := range evs { // evs is newest-first
-		if e.Def == "" || used[e.Def] {
-			keep[i] = true
-			collectSymbols(e.Text, used)
+	var work []string
+	add := func(sym string) {
+		if !used[sym] {
+			used[sym] = true
+			work = append(work, sym)
 		}
 	}
+	if !c.Cover {
+		gs := map[string]bool{}
+		collectSymbols(c.Goal.S, gs)
+		for k := range gs {
+			add(k)
+		}
+	}
+	keep := make([]bool, len(evs))
+	defIdx := map[string]int{}
+	bySym := map[string][]int{}
+	cutSeen := false
+	dropQ := map[int]bool{}
+	if level >= 0 && !c.Cover {
+		rel := map[string]bool{}
+		gs := map[string]bool{}
+		collectSymbols(c.Goal.S, gs)
+		for k := range gs {
+			if rareSymbol(k) {
+				rel[k] = true
+			}
+		}
+		var quant []int
+		cs := false
+		for i, e := range evs {
+			if e.Cut {
+				cs = true
+				continue
+			}
+			if e.Def == "" && strings.Contains(e.Text, "(forall ") {
+				if cs {
+					continue
+				}
+				quant = append(quant, i)
+				dropQ[i] = true
+			}
+		}
+		for round := 0; round <= level; round++ {
+			var added []string
+			for _, i := range quant {
+				if !dropQ[i] {
+					continue
+				}
+				for _, sy := range evs[i].symbols() {
+					if rel[sy] {
+						dropQ[i] = false
+						for _, s2 := range evs[i].symbols() {
+							if rareSymbol(s2) {
+								added = append(added, s2)
+							}
+						}
+						break
+					}
+				}
+			}
+			for _, a := range added {
+				rel[a] = true
+			}
+		}
+	}
+	for i, e := range evs { // newest first
+		if e.Cut {
+			cutSeen = true
+			continue
+		}
+		if cutSeen && e.Def == "" && strings.Contains(e.Text, "(forall ") {
+			continue
+		}
+		if dropQ[i] {
+			continue
+		}
+		switch {
+		case e.Def != "":
+			defIdx[e.Def] = i
+		case e.Init:
+			for _, sy := range e.symbols() {
+				if keySymbol(sy) {
+					bySym[sy] = append(bySym[sy], i)
+				}
+			}
+		default:
+			keep[i] = true
+			for _, sy := range e.symbols() {
+				add(sy)
+			}
+		}
+	}
+	var facts []string
+	for len(work) > 0 {
+		sym := work[len(work)-1]
+		work = work[:len(work)-1]
+		if i, ok := defIdx[sym]; ok && !keep[i] {
+			keep[i] = true
+			for _, sy := range evs[i].symbols() {
+				add(sy)
+			}
+		}
+		for _, i := range bySym[sym] {
+			if !keep[i] {
+				keep[i] = true
+				for _, sy := range evs[i].symbols() {
+					add(sy)
+				}
+			}
+		}
+		if fs, ok := initFacts[sym]; ok {
+			for _, f := range fs {
+				facts = append(facts, f)
+				for _, sy := range symbolsOfFact(f) {
+					add(sy)
+				}
+			}
+		}
+	}
+	sort.Strings(facts)
 	var body strings.Builder
+	for _, f := range facts {
+		body.WriteString("(assert ")
+		body.WriteString(f)
+		body.WriteString(")\n")
+	}
 	for i := len(evs) - 1; i >= 0; i-- {
-		if !keep[i] {
+		if !keep[i] || evs[i].Cut {
 			continue
 		}
 		e := evs[i]
@@ -349,11 +555,6 @@ func (c *Check) Script(timeoutMs int, forCvc5 bool) string {
 	}
 	decls, axs := declsFor(body.String())
 	var b strings.Builder
-	if forCvc5 {
-		b.WriteString("(set-option :produce-models true)\n(set-logic ALL)\n")
-	} else {
-		fmt.Fprintf(&b, "(set-option :timeout %d)\n", timeoutMs)
-	}
 	b.WriteString(sortPrelude())
 	b.WriteString(decls)
 	b.WriteString(axs)
@@ -363,7 +564,10 @@ func (c *Check) Script(timeoutMs int, forCvc5 bool) string {
 
 func (c *Check) Hash() string {
 	h := sha256.New()
-	h.Write([]byte(c.Script(0, false)))
+	if c.body == "" {
+		c.body = c.buildBody(-1)
+	}
+	h.Write([]byte(c.body))
 	if c.Cover {
 		h.Write([]byte("cover"))
 	}
@@ -388,6 +592,7 @@ type solverSpec struct {
 
 var solvers = []solverSpec{
 	{"z3-5.1.0", func(t int) []string { return []string{"z3-new", "-in", "-smt2"} }, false},
+	{"z3-5.1.0/arith2", func(t int) []string { return []string{"z3-new", "-in", "-smt2", "smt.arith.solver=2"} }, false},
 	{"z3-4.8.12", func(t int) []string { return []string{"/usr/bin/z3", "-in", "-smt2"} }, false},
 	{"cvc5-1.0", func(t int) []string {
 		return []string{"cvc5", "--lang=smt2", fmt.Sprintf("--tlimit=%d", t), "--strings-exp"}
@@ -395,7 +600,11 @@ var solvers = []solverSpec{
 }
 
 func runSolver(sp solverSpec, c *Check, timeoutMs int, seed int) SolverResult {
-	script := c.Script(timeoutMs, sp.cvc5)
+	return runSolverLevel(sp, c, timeoutMs, seed, -1)
+}
+
+func runSolverLevel(sp solverSpec, c *Check, timeoutMs int, seed int, level int) SolverResult {
+	script := c.ScriptLevel(timeoutMs, sp.cvc5, level)
 	if seed != 0 && !sp.cvc5 {
 		script = fmt.Sprintf("(set-option :smt.random_seed %d)\n", seed) + script
 	}
